@@ -411,6 +411,41 @@ def faulty_device_query_fail():
                                 f'failed with {exc.__name__}')
             finally:
                 importlib.import_module = real_import
+    # a port that cannot be opened: whatever the library adds to the failure (a hint which ports exist), every device query it
+    # makes on the way carries the API of that call - the explicit one if given, else the backend's
+    for name, kw, call_api, want_api in (('fk/ALSA', {}, 'Y', 'Y'), ('fk', {}, 'Y', 'Y'), ('fk/ALSA', {}, None, 'ALSA'), ('fk', {'api': 'JACK'}, 'Y', 'Y')):
+        for has_io in (True, False):
+            log = []
+            fake = make_module('fk', has_io, True, log)
+
+            def failing(cls):
+                class P:
+                    def __init__(self, name=None, **kwargs):
+                        log.append('ctor:%s' % cls)
+                        raise OSError('unknown port %r' % (name,))
+                return P
+            fake.Input, fake.Output = failing('Input'), failing('Output')
+            if has_io:
+                fake.IOPort = failing('IOPort')
+            importlib.import_module = lambda nm, package=None: fake if nm == 'fk' else real_import(nm, package)
+            try:
+                b = Backend(name, load=True, **kw)
+                for fn in ('open_input', 'open_output', 'open_ioport'):
+                    del log[:]
+                    ckw = {'api': call_api} if call_api else {}
+                    try:
+                        getattr(b, fn)('Synth 1', **ckw)
+                        return f'Backend({name!r}).{fn}("Synth 1", **{ckw!r}) returned although the port constructor raised OSError'
+                    except OSError:
+                        pass
+                    except Exception as e:      # noqa: BLE001
+                        return f'Backend({name!r}).{fn}("Synth 1", **{ckw!r}): the constructor raised OSError, the call raised {type(e).__name__}: {e}'
+                    wrong = [x for x in log if x.startswith('devices:') and x != 'devices:' + want_api]
+                    if wrong:
+                        return (f'Backend({name!r}, **{kw!r}).{fn}("Synth 1", **{ckw!r}) failed in the port constructor and on the way the '
+                                f'backend was asked for its devices with another API than {want_api!r}: {log}')
+            finally:
+                importlib.import_module = real_import
     return None
 
 
